@@ -721,7 +721,7 @@ def extract_test_pages():
     from pathlib import Path
     out = []
     for f in ("tests/test_parser.py", "tests/test_node_expand.py"):
-        p = Path("/repo") / f
+        p = Path(os.environ.get("VERIF_REPO", "/repo")) / f
         if not p.exists():
             continue
         for n in ast.walk(ast.parse(p.read_text())):
